@@ -11,6 +11,9 @@ PROFILES = {
     "panic": dict(panic_bias=1.0, mutation=0.4, depth=3, stmts=4, int_types=[U8, I8, U16, I16, USIZE]),
     # mutation heavy: let mut / assignment through accessors / loops / shadowing, all live variables returned
     "mutation": dict(mutation=1.0, ret_all_vars=True, stmts=5, panic_bias=0.1, int_types=[U8, I8, U16, I16, USIZE]),
+    # assignments through several input-dependent indices whose later index expressions and values can fail themselves
+    "assignorder": dict(assign_focus=0.8, panic_bias=0.6, mutation=1.5, ret_all_vars=True, stmts=4, structs=False, enums=False,
+                        int_types=[U8, I8, U16, USIZE]),
     # wider integer types (thorough tiers); `* / %` only with a literal operand above 8 bits
     "wide": dict(int_types=[U8, I8, U16, I16, U32, I32, U64, I64, USIZE], const_muldiv_bits=32),
     "widepanic": dict(int_types=[U8, I8, U16, I16, U32, I32, U64, I64, USIZE], const_muldiv_bits=32, panic_bias=1.0),
